@@ -327,3 +327,47 @@ theorem allCb_nil : AllCb ([] : Fib) := by
   intro p nd h; simp [PyDict.get?] at h
 
 end Ndn.Fib
+
+/-! ### the entries of the generated table `Ndn.Gen.C04.reply` the model computes with
+
+pinned to the values the proofs rely on (`Ndn.C04.gen_reply_deadline`, closed by evaluation), and what
+`Fib.mkPending` / `Fib.reply` come to for them (derived from the pin).  A source edit that changes the default
+lifetime, the way it is substituted or the operator of the "too late" test stops the pin from checking - and with it
+every theorem of C04. -/
+namespace Ndn.C04
+
+/-- the deadline of the reply closure: `DEFAULT_LIFETIME` = 4000, substituted with `is not None` (an `or` would also
+    replace lifetime 0); "too late" is `now > deadline` -/
+theorem gen_reply_deadline :
+    Gen.C04.reply.defaultLifetime = 4000 ∧ Gen.C04.reply.lifetimeDflt = .ifNotNone ∧ Gen.C04.reply.lateCmp = .gt ∧
+    Fib.tableOk = true := by decide
+
+end Ndn.C04
+
+namespace Ndn.Fib
+
+theorem defaultLifetime_eq : defaultLifetime = 4000 := C04.gen_reply_deadline.1
+
+theorem mkPending_eq (arrival : Nat) (lifetime : Option Nat) (tok : Option Bytes) :
+    mkPending arrival lifetime tok =
+      match lifetime with
+      | some l => ⟨arrival + l, tok⟩
+      | none => ⟨arrival + 4000, tok⟩ := by
+  unfold mkPending
+  rw [defaultLifetime_eq, C04.gen_reply_deadline.2.1]
+  cases lifetime <;> rfl
+
+theorem reply_eq (running : Bool) (pd : Pending) (now : Nat) (data : Bytes) :
+    reply running pd now data =
+      if now > pd.deadline then .ok (false, [])
+      else if !running then .error .other
+      else match pd.pitToken with
+        | none => .ok (true, [data])
+        | some t => .ok (true, [lpWrap t data]) := by
+  have h : Gen.C04.reply.lateCmp.holds now pd.deadline = decide (now > pd.deadline) := by
+    rw [C04.gen_reply_deadline.2.2.1]; rfl
+  unfold reply
+  rw [h]
+  cases pd.pitToken <;> cases running <;> by_cases hl : now > pd.deadline <;> simp [hl]
+
+end Ndn.Fib
